@@ -299,6 +299,75 @@ def rule_scalar(idx: ProgramIndex, rep: Report):
         rep.error(f"only {n} float-annotated operands of arithmetic methods found (expected >= 10)")
 
 
+SCALAR_CONVERTERS = {"torch.tensor", "torch.as_tensor", "torch.asarray", "torch.scalar_tensor", "torch.full"}
+
+
+def rule_scalar_dtype(idx: ProgramIndex, rep: Report):
+    """A python-scalar operand that is turned into a tensor inside an arithmetic method takes the OPERATOR's dtype:
+    torch.tensor(0.1) / torch.as_tensor(0.1) without dtype= is float32 whatever the operator is."""
+    rep.rule("C02.S2", "conversions of python-scalar operands carry the operator's dtype", floor=2)
+    n = 0
+    for c in idx.operator_classes():
+        for m in ARITH_METHODS:
+            fn = c.methods.get(m)
+            if fn is None:
+                continue
+            scalar_params = {a.arg for a in list(fn.node.args.args)[1:] if a.annotation is not None and "float" in norm(a.annotation)}
+            if not scalar_params:
+                continue
+            for x in walk_body(fn):
+                if not (isinstance(x, ast.Call) and dotted(x.func) in SCALAR_CONVERTERS and x.args):
+                    continue
+                src = x.args[-1] if dotted(x.func) == "torch.full" and len(x.args) >= 2 else x.args[0]
+                if not (isinstance(src, ast.Name) and src.id in scalar_params):
+                    continue
+                n += 1
+                dt = next((k.value for k in x.keywords if k.arg == "dtype"), None)
+                sample = {"method": f"{c.name}.{m}", "conversion": short(x, 70)}
+                derived = dt is not None and any(isinstance(y, ast.Name) and y.id == "self" for y in ast.walk(dt))
+                if derived:
+                    rep.ok("C02.S2", sample)
+                else:
+                    rep.bad("C02.S2", Finding(
+                        PROP, "C02.S2", f"{c.name}.{m}", norm(x),
+                        f"{c.name}.{m}: `{short(x, 70)}` turns the python-scalar operand `{src.id}` into a tensor "
+                        + ("without dtype=" if dt is None else f"with dtype={norm(dt)}") + ": the constant is rounded to torch's "
+                        "default dtype (float32), so a float64 operator times 0.1 is off by 1e-8 relative", fn.loc(x)), sample)
+    if n < 2:
+        rep.error(f"only {n} scalar-operand conversions found in arithmetic methods (expected >= 2)")
+
+
+# private hook -> (public wrappers that establish its precondition, the precondition in words)
+LAYERED_HOOKS = {
+    "_mul_constant": (("mul",), "the operand is a single constant or a batch of constants whose batch shape equals the "
+                                 "broadcast batch shape (LinearOperator.mul checks both)"),
+}
+
+
+def rule_hook_layering(idx: ProgramIndex, rep: Report):
+    """Who may call a private hook whose precondition is established by its public wrapper."""
+    rep.rule("C02.H", "private rewrite hooks are reached only through the public method that checks their precondition", floor=8)
+    for hook, (wrappers, pre) in LAYERED_HOOKS.items():
+        n = 0
+        for fn in idx.functions:
+            if fn.cls is None:
+                continue
+            for x in walk_body(fn):
+                if isinstance(x, ast.Call) and isinstance(x.func, ast.Attribute) and x.func.attr == hook:
+                    n += 1
+                    site = f"{fn.cls.name}.{fn.name}"
+                    if fn.name == hook or fn.name in wrappers:
+                        rep.ok("C02.H", {"hook": hook, "caller": site, "call": short(x, 60)})
+                    else:
+                        rep.bad("C02.H", Finding(
+                            PROP, "C02.H", site, norm(x),
+                            f"{site} calls the private hook `{short(x, 60)}` directly; only {', '.join(wrappers)}() and the "
+                            f"definitions of {hook} itself may, because the hook assumes that {pre}. Reached from here with "
+                            "a batched constant it returns an operator whose shape disagrees with its dense value", fn.loc(x)))
+        if n < 8:
+            rep.error(f"only {n} call sites of {hook} found (expected >= 8)")
+
+
 def run(idx: ProgramIndex, rep: Report, tier: str, selftest: bool = True):
     rep.extra["explanation"] = (
         "Table agreement between rebuild sites and constructor signatures, resolved per concrete class through the "
@@ -319,6 +388,8 @@ def run(idx: ProgramIndex, rep: Report, tier: str, selftest: bool = True):
     ]
     rule_rebuild(idx, rep)
     rule_scalar(idx, rep)
+    rule_scalar_dtype(idx, rep)
+    rule_hook_layering(idx, rep)
     if selftest:
         from ..selftest import run_fixtures
 
